@@ -26,6 +26,7 @@ META = {
     'technique': 'static analysis: abstract interpretation of the printers, the call builder, the context class and the entry point; '
                  'small-scope evaluation of the depth tests of each path; closed-use classification',
 }
+META['text'] += " Round 5: (b) container printers are also run on sequences scaled past their size constants with elements of known kinds: on a path taken with one depth level left no element is written as a literal; a branch on 'more than k levels left' in a judged printer (or its private helper) is an allowed use."
 
 CONTAINER_KEYS = {'list', 'tuple', 'set', 'dict'}
 DEPTH_TEST_KEYS = {'list', 'tuple', 'set', 'dict', 'str', 'bytes', 'int', 'float'}
